@@ -4,11 +4,16 @@
 design half : TLC checks spec/Dispose.tla (any number of Dispose/DisposeForce/
               context attempts racing through the stages of doDispose):
               SingleWinner, DisposeHandlersOnce, AllWaitersReleased and, under
-              fairness, Completes.
+              fairness, Completes.  The queue goroutine's processSubscriptions
+              runs beside them (QCollect: matched bindings leave the indexes;
+              QClose: their channels are closed): CollectedWaitersReleased,
+              NoWaiterLost, HeldGetClosed.
 binding half: harness/dispdrv lands Dispose / DisposeForce / parent-context
               cancel / two Disposes / Dispose+DisposeForce on a real machine
               that is idle, draining a short or a long queue, inside a
-              negotiation handler, inside a final handler, inside Eval, or
+              negotiation handler, inside a final handler, inside Eval, between
+              the collection and the closing of the subscriptions matched by
+              an accepted transition (landing subsCollect), or
               from inside a handler of the same machine - with and without
               handlers, with and without one outstanding waiter of every kind
               (When, WhenNot, WhenTime, WhenTicks, WhenNextActive, WhenQuery
@@ -35,13 +40,14 @@ def check(tier):
     runs = []
     for attempts, forced in (("{1, 2, 3}", "{3}"), ("{1, 2, 3, 4}", "{}")):
         r = tlcrun.run_tlc("MCDispose", dict(spec="Spec", consts=dict(Attempts=attempts, Forced=forced),
-                           invariants=["SingleWinner", "DisposeHandlersOnce", "AllWaitersReleased"]),
+                           invariants=["SingleWinner", "DisposeHandlersOnce", "AllWaitersReleased",
+                                       "CollectedWaitersReleased", "NoWaiterLost"]),
                            workers=4, timeout=600)
         if r["violated"] or r["errors"]:
             raise Inconclusive("Dispose.tla: %s %s" % (r["violated"], r["errors"][:2]))
         runs.append(dict(config="attempts=%s" % attempts, states_generated=r["states"], distinct=r["distinct"]))
     r = tlcrun.run_tlc("MCDispose", dict(spec="FairSpec", consts=dict(Attempts="{1, 2}", Forced="{}"),
-                       properties=["Completes"]), workers=4, timeout=600)
+                       properties=["Completes", "HeldGetClosed"]), workers=4, timeout=600)
     if r["violated"] or r["errors"] or "Temporal properties were violated" in r["out"]:
         raise Inconclusive("Dispose.tla liveness: %s" % r["out"][-1500:])
     runs.append(dict(config="liveness", states_generated=r["states"], distinct=r["distinct"]))
